@@ -558,6 +558,9 @@ func c10(r *ev.Run, replay string) {
 		r.Set("states", 1)
 		return
 	}
+	if !requireScheduler() {
+		return
+	}
 	fam := c10Scenarios(r.Thorough(), alphabet, nil, nil)
 	RunSharded(r, NumWorkers(), false)
 	r.Set("scenario_families", fam)
